@@ -5,23 +5,32 @@ PROP_ID = "C20"
 FEATURE = "c20"
 ENGINE = "E1 kani-cbmc + E2 mir-smt"
 FUNCTIONS = ["edp_elixir_terms::ElixirRange::{is_empty,len,contains,into_iter}", "RangeIterator::{next,size_hint}",
-             "E2: MIR of ElixirDate/ElixirTime/ElixirNaiveDateTime/ElixirDateTime::from_term (map lookups and accessors as environment stubs)"]
+             "E2: MIR of ElixirDate/ElixirTime/ElixirNaiveDateTime/ElixirDateTime::from_term (map lookups and accessors as environment stubs)",
+             "E2 (stateful interpreter): MIR of erltf OwnedTerm::{proplist_to_map, map_to_proplist} + closure + boolean"]
 ASSUMPTIONS = ["E2 wrappers: BTreeMap::get / as_integer / as_2_tuple / as_map / elixir_struct_module are environment stubs returning arbitrary presence "
-               "and arbitrary i64 values; the claim is about what from_term does with them (narrowing casts), not about the map implementation"]
-OUTSIDE = ["exceptions, keyword/atom-key builders, derived struct mappings (string-heavy; no arithmetic)"]
+               "and arbitrary i64 values; the claim is about what from_term does with them (narrowing casts), not about the map implementation",
+               "E2 proplist/map helpers: BTreeMap<OwnedTerm,_> modelled as an association list keyed by structural equality (no Integer/Float or other "
+               "cross-type Ord-equal keys in the shapes); atoms and binaries are 64-bit identity tokens; map iteration order is not modelled (laws compare sets)"]
+OUTSIDE = ["exceptions, keyword/atom-key builders, derived struct mappings (string-heavy; no arithmetic)", "MapSet", "proplists longer than 3 elements, "
+           "to_map_recursive / normalize_proplist / the typed proplist getters", "the wire trip of the wrappers"]
 STEPS = {"any": 0, "p1": 1, "m1": -1, "p2": 2, "m3": -3, "p7": 7, "max": 9223372036854775807, "min": -9223372036854775808}
 
 
 def bounds(tier):
     return {"range": "first, last, probe value: all i64; step: all i64 for overflow-freedom; agreement with the 128-bit "
                      "reference for step in %s (symbolic 128-bit division is out of CBMC's reach, see DESIGN)" % sorted(STEPS.values()),
-            "iteration": "first 3 calls of next()"}
+            "iteration": "first 3 calls of next()",
+            "proplist/map helpers": "every list of 1..2 (thorough: also 3 of a subset) elements over the classes {2-tuple keyed by atom / integer / binary / tuple, "
+                                    "bare atom, integer, 3-tuple} with symbolic keys and values: proplist_to_map keeps exactly the last value per key, bare atoms "
+                                    "become true, other elements are ignored; map -> proplist -> map is the identity on maps with such keys"}
 
 
 def extra_checks(tier, seed):
     from . import c20_e2
     out = []
     c20_e2.run(out)
+    from . import c20_props
+    c20_props.run(tier, out)
     return out
 
 
@@ -30,6 +39,9 @@ def replay_case(case):
     e = case.get("e2") or {}
     if "wrapper" in e:
         return c20_e2.replay(e["wrapper"], e["args"])
+    if "props" in e:
+        from . import c20_props
+        return c20_props.replay(e["props"], e["shape"], e["vals"])
     return None
 
 
